@@ -19,7 +19,7 @@
 //! period, keeping the repository compact.
 //!
 use crate::errors::Result;
-use crate::server::encryption::{Cryptor, Sealed, Unsealed};
+use crate::server::encryption::{Cryptor, Sealed, Secret, Unsealed};
 use crate::server::{
     AddVersionResult, GetVersionResult, HistorySegment, Server, Snapshot, SnapshotUrgency,
     VersionId,
@@ -86,6 +86,8 @@ pub(crate) struct GitSyncServer {
     remote: Option<String>,
     local_only: bool,
     cryptor: Cryptor,
+    /// The encryption secret, kept to derive a new key should the repository's salt change.
+    encryption_secret: Secret,
     /// Minimum age a version file must reach before cleanup() will remove it.
     version_retention: Duration,
 }
@@ -232,7 +234,8 @@ impl GitSyncServer {
     ) -> Result<GitSyncServer> {
         let git = Git::new(git_path);
         let meta = Self::init_repo(&git, &local_path, &branch, remote.as_deref(), local_only)?;
-        let cryptor = Cryptor::new(&meta.salt, &encryption_secret.into())?;
+        let encryption_secret: Secret = encryption_secret.into();
+        let cryptor = Cryptor::new(&meta.salt, &encryption_secret)?;
         let server = GitSyncServer {
             git,
             meta,
@@ -241,6 +244,7 @@ impl GitSyncServer {
             remote,
             local_only,
             cryptor,
+            encryption_secret,
             version_retention: VERSION_RETENTION,
         };
         Ok(server)
@@ -333,7 +337,14 @@ impl GitSyncServer {
 
     /// Read the meta file from disk and update self.meta.
     fn read_meta(&mut self) -> Result<()> {
-        self.meta = load_meta(&self.local_path.join("meta"))?;
+        let meta = load_meta(&self.local_path.join("meta"))?;
+        if meta.salt != self.meta.salt {
+            // Another clone published the repository first (with its own salt) and this clone
+            // has just been reset to it: everything in it is sealed with a key derived from
+            // that salt.
+            self.cryptor = Cryptor::new(&meta.salt, &self.encryption_secret)?;
+        }
+        self.meta = meta;
         Ok(())
     }
 
@@ -751,6 +762,7 @@ impl Server for GitSyncServer {
 
     async fn add_snapshot(&mut self, version_id: VersionId, snapshot: Snapshot) -> Result<()> {
         self.reset_to_remote()?;
+        self.read_meta()?;
         // Write the snapshot to a file.
         // If another replica has pushed a snapshot for a later version in the chain between
         // our reset_to_remote and our push, we will overwrite it. This is harmless. A replica
@@ -801,6 +813,7 @@ impl Server for GitSyncServer {
 
     async fn get_snapshot(&mut self) -> Result<Option<(VersionId, Snapshot)>> {
         self.reset_to_remote()?;
+        self.read_meta()?;
 
         let snapshot_path = self.local_path.join("snapshot");
         if let Ok(file) = File::open(&snapshot_path) {
